@@ -1126,10 +1126,12 @@ def rule_helperdefaults(rule):
 
 # ------------------------------------------------------------------ NARROWDTYPE
 NARROW = {"int8", "int16", "int32", "uint8", "uint16", "uint32", "float16", "float32", "half", "single", "short", "intc", "byte"}
+# reviewed per function: the same narrow type anywhere else is a new site
 NARROW_REVIEWED = {
-    ("hierarchy", "uint8"): "level indices of a hierarchy (documented small)",
-    ("segment", "int32"): "marginals of the contingency table in the expected-MI sum (sklearn's own code)",
-    ("util", "float32"): "sample index grid of intervals_to_samples (as published)",
+    ("hierarchy", "_lca", "uint8"): "level indices of a hierarchy (documented small)",
+    ("hierarchy", "_meet", "uint8"): "level indices of a hierarchy (documented small)",
+    ("segment", "_adjusted_mutual_info_score", "int32"): "marginals of the contingency table in the expected-MI sum (sklearn's own code): used as summation limits and gammaln arguments, never multiplied together",
+    ("util", "intervals_to_samples", "float32"): "sample index grid of intervals_to_samples (as published)",
 }
 
 
@@ -1140,18 +1142,33 @@ def rule_narrowdtype(rule, files):
             mod = ctx.program.modules[mname]
             if mod.path.split("mir_eval/")[-1] not in files:
                 continue
+            owner = {}
+            for fn in ast.walk(mod.tree):
+                if isinstance(fn, ast.FunctionDef):
+                    for x in ast.walk(fn):
+                        owner[x] = fn.name  # the innermost function wins: ast.walk visits outer definitions first
             for node in ast.walk(mod.tree):
                 names = []
                 if isinstance(node, ast.keyword) and node.arg == "dtype":
                     names.append(node.value)
                 elif isinstance(node, ast.Call) and isinstance(node.func, ast.Attribute) and node.func.attr == "astype" and node.args:
                     names.append(node.args[0])
+                elif isinstance(node, ast.Call) and isinstance(node.func, ast.Attribute) and node.func.attr in NARROW and isinstance(node.func.value, ast.Name) and node.func.value.id in ("np", "numpy"):
+                    names.append(node.func)  # np.int32(x)
                 for v in names:
                     txt = ast.unparse(v).strip("\"'").split(".")[-1]
                     if txt in NARROW:
                         n += 1
-                        ok = (mname, txt) in NARROW_REVIEWED
-                        yield ob(rule, "mir_eval/%s.py:%d" % (mname, getattr(v, "lineno", 1)), "%s:dtype=%s@%d" % (mname, txt, n), ok, ("reviewed narrow type: %s" % NARROW_REVIEWED[(mname, txt)]) if ok else "a count / score array is given the narrow type %s: values beyond its range wrap around silently" % txt)
+                        fname = owner.get(node, "<module>")
+                        ok = (mname, fname, txt) in NARROW_REVIEWED
+                        why_ok = NARROW_REVIEWED.get((mname, fname, txt))
+                        if not ok and fname.startswith("_"):
+                            # a private helper that only the reviewed function calls: the reviewed code, moved
+                            callers = {owner.get(c) for c in ast.walk(mod.tree) if isinstance(c, ast.Call) and isinstance(c.func, ast.Name) and c.func.id == fname}
+                            if callers and all((mname, c, txt) in NARROW_REVIEWED for c in callers):
+                                ok = True
+                                why_ok = NARROW_REVIEWED[(mname, sorted(callers)[0], txt)] + " (in a helper only that function calls)"
+                        yield ob(rule, "mir_eval/%s.py:%d" % (mname, getattr(v, "lineno", 1)), "%s.%s:dtype=%s@%d" % (mname, fname, txt, n), ok, ("reviewed narrow type: %s" % why_ok) if ok else "a count / score array is given the narrow type %s in %s: values beyond its range wrap around silently" % (txt, fname))
         need(n >= 1, rule, "no narrow dtype site found (the reviewed ones vanished)")
 
     return run
